@@ -92,7 +92,8 @@ def equal_interval_ref(values, k, rel_eps):
 
     Class i is the i-th of the k equal-width intervals of [min, max]: with t = (v - min) * k / (max - min)
     the class is floor(t) for a non-integer t, 0 for t = 0 and k-1 for t = k; an integer t in 1..k-1 is a
-    value sitting on an interior cut (side undocumented) -> TIE, as is any t within eps of such a cut."""
+    value sitting on an interior cut (side undocumented) -> TIE, as is any t > 0 within eps of such a cut
+    (eps = rel_eps x the magnitude of the values, which for a narrow range far from 0 can cover whole intervals)."""
     fr = [Fraction(float(v)) for v in values]
     mn, mx = min(fr), max(fr)
     assert mx > mn
@@ -101,9 +102,9 @@ def equal_interval_ref(values, k, rel_eps):
     out = []
     for v in fr:
         t = (v - mn) * k / (mx - mn)
-        j = round(t)
-        if 1 <= j <= k - 1 and abs(t - j) <= eps_t:
-            out.append(TIE)
+        j = min(max(round(t), 1), k - 1)          # the nearest INTERIOR cut (eps_t may exceed half an interval when the
+        if t > 0 and abs(t - j) <= eps_t:         # range is tiny relative to the magnitude of the values; the minimum
+            out.append(TIE)                       # itself is in interval 0 wherever the cuts > min fall)
         elif t >= k:
             out.append(k - 1)
         else:
